@@ -2360,14 +2360,16 @@ def straight_line(alpha1, delta1, alpha2, delta2, alpha3, delta3):
     n1 = a1 * b2 - a2 * b1
     n2 = a2 * b3 - a3 * b2
     n3 = a1 * b3 - a3 * b1
-    psi = acos(
-        (l1 * l2 + m1 * m2 + n1 * n2)
-        / (sqrt(l1 * l1 + m1 * m1 + n1 * n1)
-           * sqrt(l2 * l2 + m2 * m2 + n2 * n2)))
-    omega = asin(
-        (a2 * l3 + b2 * m3 + c2 * n3)
-        / (sqrt(a2 * a2 + b2 * b2 + c2 * c2)
-           * sqrt(l3 * l3 + m3 * m3 + n3 * n3)))
+    cospsi = ((l1 * l2 + m1 * m2 + n1 * n2)
+              / (sqrt(l1 * l1 + m1 * m1 + n1 * n1)
+                 * sqrt(l2 * l2 + m2 * m2 + n2 * n2)))
+    sinomega = ((a2 * l3 + b2 * m3 + c2 * n3)
+                / (sqrt(a2 * a2 + b2 * b2 + c2 * c2)
+                   * sqrt(l3 * l3 + m3 * m3 + n3 * n3)))
+    # Rounding may leave these a few ulps outside [-1, 1] when the three
+    # bodies lie exactly on a great circle
+    psi = acos(max(-1.0, min(1.0, cospsi)))
+    omega = asin(max(-1.0, min(1.0, sinomega)))
     return Angle(psi, radians=True), Angle(omega, radians=True)
 
 
